@@ -123,7 +123,20 @@ pub fn gen_history(rng: &mut Rng, keys: &[Vec<u8>], max_ops: usize, per_block: u
     let n_ops = rng.urange(1, max_ops.max(1));
     let mut steps = Vec::with_capacity(n_ops);
     let mut ncur = 1u8;
+    let pick_fresh = |rng: &mut Rng| -> Vec<u8> { pick_fresh_impl(rng, keys) };
+    // the previous probe is reused now and then (the same seek repeated, GE then EQ of one key, ...)
+    let last_probe: std::cell::RefCell<Option<Vec<u8>>> = std::cell::RefCell::new(None);
     let pick_key = |rng: &mut Rng| -> Vec<u8> {
+        if rng.chance(1, 7) {
+            if let Some(k) = last_probe.borrow().clone() {
+                return k;
+            }
+        }
+        let k = pick_fresh(rng);
+        *last_probe.borrow_mut() = Some(k.clone());
+        k
+    };
+    fn pick_fresh_impl(rng: &mut Rng, keys: &[Vec<u8>]) -> Vec<u8> {
         if keys.is_empty() || rng.chance(1, 8) {
             let l = rng.urange(0, 6);
             return rng.bytes(l);
@@ -143,7 +156,7 @@ pub fn gen_history(rng: &mut Rng, keys: &[Vec<u8>], max_ops: usize, per_block: u
             1 => gen::pred(&k),
             _ => k,
         }
-    };
+    }
     for _ in 0..n_ops {
         let cur = rng.below(ncur as u64) as u8;
         let choice = rng.weighted(&[8, 8, 12, 12, 10, 10, 6, 4, 5, 6, 12, 12]);
